@@ -833,3 +833,4 @@ MANIFEST = {
     "when several differ; compatible-unit listings under a context. Graphs with more than 4 rules or more than 4 dimensionalities are outside the bound.",
     "ref": "DESIGN.md §4 C11",
 }
+MANIFEST["text"] += ' Partial unwinding: every history of <= 4 (5 thorough) events over enable / disable(1|2) / per-call activation of two rule-less (redefinition only) and two rule-carrying contexts on a fresh registry: after every history 4 probes (and the per-call conversion itself) equal the stack model (most recent rule owner wins, redefinitions of enabled contexts only).'
